@@ -71,8 +71,8 @@ type FaultMenu struct {
 // (a pump, a janitor) is not one: every call has returned.
 func Deadlocked(out *simrt.Outcome) bool { return out.Stuck && out.ClientsAlive > 0 }
 
-// ForceStrategy, when >= 0, replaces the strategy draw of DrawConfig (0-1 random
-// walk, 2-3 sticky, 4-5 partial-order sampling, 6-9 PCT). It exists for the
+// ForceStrategy, when >= 0, replaces the strategy draw of DrawConfig (0-2 random
+// walk, 3-5 sticky, 6-7 partial-order sampling, 8-9 PCT). It exists for the
 // strategy comparison of tools/strategy_eval.py (VERIF_STRATEGY) and is never set
 // by a registered check.
 var ForceStrategy = -1
@@ -95,13 +95,17 @@ func DrawConfig(r *simrt.Rand, m FaultMenu) simrt.Config {
 	if ForceStrategy >= 0 {
 		pick = ForceStrategy
 	}
+	// shares set from the comparison on the seeded changes (DESIGN.md 11.9): the
+	// random walk was the quickest on most of them, PCT the slowest and the only
+	// one to miss some entirely, yet each strategy was the only or the quickest one
+	// for a few - so all four stay, in proportion
 	switch pick {
-	case 0, 1:
+	case 0, 1, 2:
 		cfg.Strategy = simrt.StratRandom
-	case 2, 3:
+	case 3, 4, 5:
 		cfg.Strategy = simrt.StratSticky
 		cfg.StickyQ = []float64{0.5, 0.8, 0.95}[r.Intn(3)]
-	case 4, 5:
+	case 6, 7:
 		cfg.Strategy = simrt.StratPOS
 	default:
 		cfg.Strategy = simrt.StratPCT
